@@ -65,7 +65,7 @@ impl WirePlan {
             "seed": self.seed.to_string(),
             "pending_permille": self.pending_permille,
             "spurious_permille": self.spurious_permille,
-            "sched": match self.sched { SchedKind::Random => "random", SchedKind::Pct => "pct" },
+            "sched": match self.sched { SchedKind::Random => "random", SchedKind::Pct => "pct", SchedKind::Sticky => "sticky" },
             "pct_depth": self.pct_depth,
             "max_steps": self.max_steps,
             "teardown": match self.teardown { Teardown::Clean => "clean", Teardown::BrokerShutdown => "broker-shutdown" },
@@ -105,10 +105,10 @@ impl WirePlan {
             actors,
             pending_permille: v["pending_permille"].as_u64()? as u32,
             spurious_permille: v["spurious_permille"].as_u64()? as u32,
-            sched: if v["sched"].as_str()? == "pct" {
-                SchedKind::Pct
-            } else {
-                SchedKind::Random
+            sched: match v["sched"].as_str()? {
+                "pct" => SchedKind::Pct,
+                "sticky" => SchedKind::Sticky,
+                _ => SchedKind::Random,
             },
             pct_depth: v["pct_depth"].as_u64()? as usize,
             max_steps: v["max_steps"].as_u64()? as usize,
